@@ -9,7 +9,7 @@
     their headers and nodes. The two lists may use different allocator families; only the move operations
     splice / splice_at need them to agree ([mem_ok w o]), because they hand the source's nodes to the destination. *)
 From CC Require Import Base.Prelude Base.Alloc Base.AllocProofs Generated.Status.
-From CC Require Import List_.ListModel List_.ListHeap List_.ListProofs1 List_.ListProofs4 List_.ListProofs5.
+From CC Require Import List_.ListModel List_.ListHeap List_.ListProofs1 List_.ListProofs4 List_.ListProofs5 List_.ListProofs10.
 From CC Require Import SList.SListModel SList.SListHeap SList.SListProofs1 SList.SListProofs3 SList.SListProofs4.
 Local Open Scope N_scope.
 
@@ -153,6 +153,17 @@ Theorem C04_slist_run_refines : forall cmp pred mema memb a0 sa a1 sb a2 ops,
     (plan a0 = [] -> sfls_ok cmp pred (limit a0) ([], []) ops fls).
 Proof. exact slist_new_run_refines. Qed.
 Print Assumptions C04_slist_run_refines.
+
+(** cc_list_reduce on a well-formed list: refused when empty, [fn x NULL] for one element, otherwise the left fold
+    over the elements in list order, each visited exactly once. *)
+Theorem C04_list_reduce : forall fn s, lwf s ->
+  cl_reduce fn s = Ok (match cl_abs s with
+                       | [] => (CC_ERR_OUT_OF_RANGE, 0)
+                       | [x] => (CC_OK, fn x 0)
+                       | x :: y :: rest => (CC_OK, fold_left fn rest (fn x y))
+                       end).
+Proof. exact reduce_abs. Qed.
+Print Assumptions C04_list_reduce.
 
 Example C04_slist_inv_nonvacuous : exists w, swinv w /\ swabs w = ([3; 1; 2; 7], [7]).
 Proof.
